@@ -9,6 +9,7 @@ import json
 import os
 from .. import core
 from . import c04
+from . import _c07_sheps
 
 NOSHEP = 65535
 
@@ -190,7 +191,8 @@ def run(ctx):
     ctx.assumptions += ["the worker's reads of shepherd `active` flags are unlocked: placement is only judged (oracle and acceptor) when the flag was not being changed between the dequeue and the sample; the theorems carry this as the hypothesis reads_current",
                         "affinity/hwloc distances are inputs (read back from the runtime); random() tie-breaks are oracle bits",
                         "sequential consistency of the runtime's own accesses"]
-    c04.verdict(ctx, "C07", [pr], corr, orc)
+    pr_s, corr_s, orc_s = _c07_sheps.run_sheps(ctx, quick)     # extension N: shepherds.c / workers.c / sort_sheps vs Kernel/Sheps.v
+    c04.verdict(ctx, "C07", [pr, pr_s], corr + corr_s, orc + orc_s)
 
 
 def replay(ctx, path):
@@ -198,6 +200,10 @@ def replay(ctx, path):
     print(json.dumps(j, indent=1)[:3000])
     rep = j.get("replay", {})
     cand = rep.get("failing_input") or (rep.get("first_mismatch") or [None, None])[1] or rep
+    if isinstance(cand, dict) and cand.get("kind") == "sheps":
+        corr, orc = _c07_sheps.replay_case(ctx, cand)
+        c04.verdict(ctx, "C07", [], corr, orc)
+        return
     exe, drv, _ = c04.prepare(ctx)
     if isinstance(cand, dict) and cand.get("kind") == "fas":
         fasexe = ctx.link("c07_fas", ["c07_fas.c"], exclude=["shepherds.c"])
